@@ -750,4 +750,4 @@ def replay(rec):
     return tuple(site) in sites, {"sites_seen": sorted(sites)}
 
 
-MANIFEST = {'category': 'exploration', 'technique': 'bounded exhaustive enumeration of unit pairs / spellings / compound containers / dimension specs against an independent definition-file reader (R1) — small-scope model checking of the compatibility relation', 'text': "All ordered pairs of the multiplicative canonical units of the bundled registry (~150k), every defined spelling alone and prefixed/pluralised, every ordered pair of 1-2 entry compound containers over a 7-unit alphabet with integer and half-integer exponents, all triples of a 40-container sub-alphabet (equivalence laws, closure under * / **), every declared dimension x exponent alphabet as a dimension spec through get_dimensionality / Quantity.check / ureg.check, compatible-unit listings of every unit, products, quotients and powers of QUANTITIES over the compound alphabet in a float registry and in an auto-reducing exact (Fraction) registry — the result must have the product of the dimension vectors and stay convertible to the plain product unit —, a history clause (every ordered pair of the compound alphabet — thorough: of the canonical units too — converted twice in ONE registry, so that each pair is judged again after every other pair has warmed the registry's memos), and 54 generated registries with derived-dimension DAGs: each conversion must return a number exactly when R1's base-dimension vectors agree and raise DimensionalityError otherwise, and each predicate must equal that relation. thorough repeats everything for Fraction, Decimal, case-insensitive and auto_reduce_dimensions registries.", 'note': 'Trusted: R1 (mc/ref/defs.py, no pint imports; cross-checked against pint on the unchanged tree). Strings with several non-equivalent prefix readings are left to C08; offset/log units to C06; compounds with more than 2 (pairs) / 3 factors and units added after construction are outside the bound.', 'ref': 'DESIGN.md §4 C01'}
+MANIFEST = {'category': 'exploration', 'technique': 'bounded exhaustive enumeration of unit pairs / spellings / compound containers / dimension specs against an independent definition-file reader (R1) — small-scope model checking of the compatibility relation', 'text': "All ordered pairs of the multiplicative canonical units of the bundled registry (~150k), every defined spelling alone and prefixed/pluralised, every ordered pair of 1-2 entry compound containers over a 7-unit alphabet with integer and half-integer exponents, all triples of a 40-container sub-alphabet (equivalence laws, closure under * / **), every declared dimension x exponent alphabet as a dimension spec through get_dimensionality / Quantity.check / ureg.check, compatible-unit listings of every unit, products, quotients and powers of QUANTITIES over the compound alphabet in a float registry and in an auto-reducing exact (Fraction) registry — the result must have the product of the dimension vectors and stay convertible to the plain product unit —, the predicates of ONE quantity object after every chain of <= 2 in-place operations (*=, /=, **=, ito_root/base/reduced_units, ito) against the units it then carries, a history clause (every ordered pair of the compound alphabet — thorough: of the canonical units too — converted twice in ONE registry, so that each pair is judged again after every other pair has warmed the registry's memos), and 54 generated registries with derived-dimension DAGs: each conversion must return a number exactly when R1's base-dimension vectors agree and raise DimensionalityError otherwise, and each predicate must equal that relation. thorough repeats everything for Fraction, Decimal, case-insensitive and auto_reduce_dimensions registries.", 'note': 'Trusted: R1 (mc/ref/defs.py, no pint imports; cross-checked against pint on the unchanged tree). Strings with several non-equivalent prefix readings are left to C08; offset/log units to C06; compounds with more than 2 (pairs) / 3 factors and units added after construction are outside the bound.', 'ref': 'DESIGN.md §4 C01'}
